@@ -5,6 +5,7 @@
 #include <stdlib.h>
 #include <string.h>
 #include <time.h>
+#include <sys/time.h>
 #include <sys/mman.h>
 #include <unistd.h>
 
@@ -16,7 +17,7 @@ const char *vf_cex_extra;      /* optional JSON fragment ("key":value) added to 
 uint64_t vf_violation_events;
 double vf_first_violation_t;
 
-double vf_now_s(void) { struct timespec ts; clock_gettime(CLOCK_MONOTONIC, &ts); return ts.tv_sec + ts.tv_nsec * 1e-9; }
+double vf_now_s(void) { struct timeval tv; gettimeofday(&tv, NULL); return (double)tv.tv_sec + (double)tv.tv_usec * 1e-6; }   /* not clock_gettime: the daemon driver interposes it */
 
 uint64_t vf_hash64(const void *p, size_t n, uint64_t seed) {
     const uint8_t *b = p; uint64_t h = 0xcbf29ce484222325ull ^ (seed * 0x9E3779B97F4A7C15ull);
